@@ -142,9 +142,20 @@ def run(ctx):
                 b = observe(T.make_unchecked, **kw)
                 ctx.count('ctor_checked')
                 if b.kind == 'value' and (a.kind != 'value' or not deep_typed_eq(b.val, a.val)[0]):
-                    ctx.violation('ctor-accepts-typed-arguments', 'main', i,
-                                  {'type': describe(ty), 'kwargs': short(kw, 300), 'checked': a.brief(), 'unchecked': b.brief()},
-                                  mech='ctor-differs-from-unchecked')
+                    # the constructor converts each argument on its own (by the ARGUMENT's type, not through the enclosing class): an
+                    # argument that is not a fixed point of its field type is the located witness (and may be a known finding)
+                    S = ty.x['spec']
+                    arg_ok = True
+                    for f in S.fields:
+                        if f.name in kw and f.name != '_KW_ONLY_':
+                            FT, ferr = build_type(f.ty)
+                            if ferr is None and fixed_point(FT, kw[f.name]) is not None:
+                                arg_ok = check_fixed(i, 'main', 'constructor-argument', f.ty, FT, kw[f.name]) and arg_ok
+                                arg_ok = False
+                    if arg_ok:
+                        ctx.violation('ctor-accepts-typed-arguments', 'main', i,
+                                      {'type': describe(ty), 'kwargs': short(kw, 300), 'checked': a.brief(), 'unchecked': b.brief()},
+                                      mech='ctor-differs-from-unchecked')
 
     drive.for_each_case(ctx, 'main', ctx.budget, body)
 
